@@ -7,6 +7,7 @@ links as a native executable. The parsing/printing glue here is outside the theo
 import Lean.Data.Json
 import AsphaltModel
 import DriverLib.Ctx
+import DriverLib.Sig
 
 open Lean Asphalt
 
@@ -150,6 +151,7 @@ def dispatch (j : Json) : Except String Json := do
   | "init" => runInit j
   | "publishName" => runPublishName j
   | "ctx" => runCtx j
+  | "sig" => runSig j
   | _ => throw s!"unknown kind {kind}"
 
 end Drv
